@@ -121,7 +121,8 @@ Definition reload_diverted (p : pointer) : Res pointer :=
 Definition diverted_ok_b (p : pointer) : bool :=
   match reload_diverted p with Ok q => pointer_eqb p q | _ => false end.
 
-Definition wf_element_b (e : element) : bool := elem_ptr_ok_b (el_ptr e) && wf_valmap_b (el_temps e).
+Definition wf_element_b (e : element) : bool :=
+  elem_ptr_ok_b (el_ptr e) && wf_valmap_b (el_temps e) && in_i32 (el_fstart e).
 Definition wf_thread_b (t : thread) : bool :=
   forallb wf_element_b (th_cs t) && prev_ok_b (th_prev t) && (th_index t <? 9223372036854775808)%N.
 Definition wf_callstack_b (cs : callstack) : bool :=
@@ -147,7 +148,8 @@ Definition norm_valmap (m : list (text * value)) : list (text * value) :=
 (* a null pointer is not written at all: its index comes back as -1 *)
 Definition norm_ptr (p : pointer) : pointer := if ptr_is_null p then ptr_null else p.
 Definition norm_element (e : element) : element :=
-  mkElement (norm_ptr (el_ptr e)) (el_inexpr e) (norm_valmap (el_temps e)) (el_type e) 0 0%Z.
+  mkElement (norm_ptr (el_ptr e)) (el_inexpr e) (norm_valmap (el_temps e)) (el_type e) 0
+            (if ssw_fstart_saved sw then el_fstart e else 0%Z).
 Definition norm_prev (p : pointer) : pointer :=
   match reload_prev root p with Ok q => q | _ => ptr_null end.
 Definition norm_thread (t : thread) : thread :=
@@ -271,3 +273,17 @@ Definition at_save_point (w : world) : bool :=
   && (match w_snapshot w with None => true | Some _ => false end)
   && (match ss_patch (w_state w) with None => true | Some _ => false end)
   && no_eval_from_game (fl_cs (ss_flow (w_state w))).
+
+(* extra (executable) hypotheses of the re-save theorem: the globals are exactly the declared
+   ones, in the order of the defaults; every default equals itself under val_equal (no NaN) *)
+Fixpoint texts_eq_b (a b : list text) : bool :=
+  match a, b with
+  | [], [] => true
+  | x :: a', y :: b' => text_eqb x y && texts_eq_b a' b'
+  | _, _ => false
+  end.
+Definition resave_hyp_b (sw : save_switches) (w : world) : bool :=
+  let v := ss_vars (w_state w) in
+  texts_eq_b (map fst (vs_globals v)) (map fst (vs_defaults v))
+  && forallb (fun kd : text * value => val_equal sw (snd kd) (snd kd)) (vs_defaults v)
+  && ptr_is_null (ss_diverted (w_state w)).
